@@ -14,7 +14,7 @@ import DracoProofs.SymbolBit
 import DracoProofs.EncBuf
 import Generated.Constants
 import Generated.FastDivTab
-import DracoProofs.GeneratedFuncs
+import DracoProofs.GeneratedCore
 /-
   C17 — "Every primitive writer/reader pair of the bitstream layer is an exact inverse for all
   values: variable-length integers of every width and sign, byte-aligned scalars, bit sequences
